@@ -1630,6 +1630,18 @@ VARIANTS = [
         elif cls.__options__:
             context = (context.options & cls.__options__).make_context(context.cls, context=context)
         options = context.options""")),
+    B("C06 revert F56: data-first drops a key naming an excluded field", "C06", "R06k",
+      (BASE, """            if field and excluded_keys and (field.attname if as_attname else field.name) in excluded_keys:
+                # an excluded field (a parameter already given by position) takes no input by name:
+                # its key is handled like any other additional key (as in the field-first strategy)
+                field = None
+""", ""),
+      (BASE, """            provided[name] = value
+            parsed = field.parse_value(value, context=context)""", """            if excluded_keys and name in excluded_keys:
+                continue
+
+            provided[name] = value
+            parsed = field.parse_value(value, context=context)""")),
     G("benign comment and blank lines",
       (RULE, "        context.raise_error()  # raise error if collected\n        return value", "        # flush\n\n        context.raise_error()\n        return value")),
 ]
